@@ -53,6 +53,31 @@ type Case struct {
 	Main   []Stmt   `json:"main"`
 	Branch []Stmt   `json:"branch"`
 	Extra  []string `json:"extra"` // run in a third repository C: tables with fulltext / vector indexes and foreign keys (round trip only)
+	// same DDL statements, different commit placement: Base is committed; X and Y are run on two branches of one repository
+	// (then merged) and Y also in an independent repository; Fresh in a repository that never had the tables
+	Recreate *Recreate `json:"recreate,omitempty"`
+}
+
+type Recreate struct {
+	Base  []Stmt `json:"base"`
+	X     []Stmt `json:"x"`
+	Y     []Stmt `json:"y"`
+	Fresh []Stmt `json:"fresh"`
+}
+
+type RCObs struct {
+	Base    []StepObs   `json:"base"`
+	X       []StepObs   `json:"x"`
+	Y       []StepObs   `json:"y"`
+	Fresh   []StepObs   `json:"fresh"`
+	YRepoE  []string    `json:"yrepoerrs"`
+	XT      []Tbl       `json:"xt"`
+	YT      []Tbl       `json:"yt"`
+	YRepoT  []Tbl       `json:"yrepot"`
+	FreshT  []Tbl       `json:"fresht"`
+	Merge   util.Result `json:"merge"`
+	SchConf util.Result `json:"schconf"`
+	Merged  []Tbl       `json:"merged"`
 }
 
 type ColTag struct {
@@ -199,6 +224,7 @@ type Obs struct {
 	HashB2   map[string]string `json:"hashb2"`  // table.GetSchemaHash on branch b2 of repository A
 	FKs      []FKObs           `json:"fks"`
 	ExtraErr []string          `json:"extraerr"`
+	RC       *RCObs            `json:"rc,omitempty"`
 }
 
 var simpleRe = regexp.MustCompile("[^a-zA-Z0-9]+")
@@ -653,14 +679,6 @@ func Run(raw json.RawMessage) (any, error) {
 	if o.Merged, err = finalTables(sA); err != nil {
 		return nil, err
 	}
-	keys := make([]string, 0, len(r.cands))
-	for k := range r.cands {
-		keys = append(keys, k)
-	}
-	sort.Strings(keys)
-	for _, k := range keys {
-		o.Cands = append(o.Cands, r.cands[k])
-	}
 
 	// ---- independent repository B ----
 	envB, err := util.NewEnv(false)
@@ -724,6 +742,123 @@ func Run(raw json.RawMessage) (any, error) {
 			return nil, err
 		}
 		o.FKs = append(o.FKs, fo)
+	}
+
+	// ---- same statements, different commit placement ----
+	if c.Recreate != nil {
+		rc, err := runRecreate(c.Recreate, r.cands)
+		if err != nil {
+			return nil, err
+		}
+		o.RC = rc
+	}
+	keys := make([]string, 0, len(r.cands))
+	for k := range r.cands {
+		keys = append(keys, k)
+	}
+	sort.Strings(keys)
+	for _, k := range keys {
+		o.Cands = append(o.Cands, r.cands[k])
+	}
+	return o, nil
+}
+
+func runPart(s *util.Session, cands map[string]Cand, stmts []Stmt, detail bool) ([]StepObs, []string, error) {
+	r := &runner{s: s, cands: cands}
+	out := []StepObs{}
+	errs := []string{}
+	for _, st := range stmts {
+		so, err := r.step(st, detail)
+		if err != nil {
+			return nil, nil, err
+		}
+		out = append(out, so)
+		errs = append(errs, so.Err)
+	}
+	return out, errs, nil
+}
+
+func runRecreate(rc *Recreate, cands map[string]Cand) (*RCObs, error) {
+	o := &RCObs{}
+	newSess := func() (*util.Env, *util.Session, error) {
+		e, err := util.NewEnv(false)
+		if err != nil {
+			return nil, nil, err
+		}
+		s, err := e.NewSession()
+		if err != nil {
+			e.Close()
+			return nil, nil, err
+		}
+		return e, s, nil
+	}
+	// repository E: two branches
+	eE, sE, err := newSess()
+	if err != nil {
+		return nil, err
+	}
+	defer eE.Close()
+	if o.Base, _, err = runPart(sE, cands, rc.Base, true); err != nil {
+		return nil, err
+	}
+	if err := sE.MustExec("call dolt_commit('--allow-empty','-Am','base')", "call dolt_checkout('-b','x')"); err != nil {
+		return nil, err
+	}
+	if o.X, _, err = runPart(sE, cands, rc.X, true); err != nil {
+		return nil, err
+	}
+	if err := sE.MustExec("call dolt_commit('--allow-empty','-Am','x')"); err != nil {
+		return nil, err
+	}
+	if o.XT, err = finalTables(sE); err != nil {
+		return nil, err
+	}
+	if err := sE.MustExec("call dolt_checkout('main')", "call dolt_checkout('-b','y')"); err != nil {
+		return nil, err
+	}
+	if o.Y, _, err = runPart(sE, cands, rc.Y, true); err != nil {
+		return nil, err
+	}
+	if err := sE.MustExec("call dolt_commit('--allow-empty','-Am','y')"); err != nil {
+		return nil, err
+	}
+	if o.YT, err = finalTables(sE); err != nil {
+		return nil, err
+	}
+	o.Merge = sE.Exec("call dolt_merge('x')")
+	o.SchConf = sE.Exec("select table_name, description from dolt_schema_conflicts")
+	if o.Merged, err = finalTables(sE); err != nil {
+		return nil, err
+	}
+	// repository F: the Y route in an independent repository
+	eF, sF, err := newSess()
+	if err != nil {
+		return nil, err
+	}
+	defer eF.Close()
+	if _, _, err = runPart(sF, nil, rc.Base, false); err != nil {
+		return nil, err
+	}
+	if err := sF.MustExec("call dolt_commit('--allow-empty','-Am','base')"); err != nil {
+		return nil, err
+	}
+	if _, o.YRepoE, err = runPart(sF, nil, rc.Y, false); err != nil {
+		return nil, err
+	}
+	if o.YRepoT, err = finalTables(sF); err != nil {
+		return nil, err
+	}
+	// repository G: never had the tables
+	eG, sG, err := newSess()
+	if err != nil {
+		return nil, err
+	}
+	defer eG.Close()
+	if o.Fresh, _, err = runPart(sG, cands, rc.Fresh, true); err != nil {
+		return nil, err
+	}
+	if o.FreshT, err = finalTables(sG); err != nil {
+		return nil, err
 	}
 	return o, nil
 }
